@@ -274,6 +274,47 @@ Definition ring_labels (g : mol) (sssr : list ring) : list (Z * bool * list Z) *
   (map (fun nl => (fst nl, atom_in_ring sssr (fst nl), atom_ring_sizes sssr (fst nl))) (m_adj g),
    flat_map (fun nl => map (fun mb => (fst nl, fst mb, bond_label sssr (fst nl) mb)) (snd nl)) (m_adj g)).
 
+(* MoleculeContainer.aromatic_rings:
+     bonds = self._bonds
+     tuple(ring for ring in self.sssr if bonds[ring[0]][ring[-1]] == 4
+           and all(bonds[n][m] == 4 for n, m in zip(ring, ring[1:])))            (evaluated left to right, short-circuit) *)
+Definition bond_ord (g : mol) (n m : Z) : pyres Z :=
+  match zget (m_adj g) n with
+  | None => Err KeyError
+  | Some l => match zget l m with None => Err KeyError | Some b => Ok (b_ord b) end
+  end.
+Fixpoint all4 (g : mol) (ps : list (Z * Z)) : pyres bool :=
+  match ps with
+  | [] => Ok true
+  | (n, m) :: rest =>
+      match bond_ord g n m with
+      | Err e => Err e
+      | Ok o => if o =? 4 then all4 g rest else Ok false
+      end
+  end.
+Definition ring_aromatic (g : mol) (r : ring) : pyres bool :=
+  match r with
+  | [] => Err IndexError
+  | r0 :: _ =>
+      match bond_ord g r0 (last r 0) with
+      | Err e => Err e
+      | Ok o => if o =? 4 then all4 g (combine r (tl r)) else Ok false
+      end
+  end.
+Fixpoint aromatic_rings (g : mol) (sssr : list ring) : pyres (list ring) :=
+  match sssr with
+  | [] => Ok []
+  | r :: rest =>
+      match ring_aromatic g r with
+      | Err e => Err e
+      | Ok keep =>
+          match aromatic_rings g rest with
+          | Err e => Err e
+          | Ok l => Ok (if keep then r :: l else l)
+          end
+      end
+  end.
+
 (* ------------------------------------------------------------------------------------------------ *)
 (* SPECIFICATION: cycles, edge vectors over GF(2), the cycle-basis checker                             *)
 
@@ -456,6 +497,8 @@ Definition c_lab (m : mol) (rs : list ring) (ea : list (Z * (bool * list Z))) (e
   list_eqb (pair_eqb Z.eqb (pair_eqb Bool.eqb (list_eqb Z.eqb)))
            (map (fun x => (fst (fst x), (snd (fst x), sort_z (snd x)))) (fst rl)) ea &&
   list_eqb Bool.eqb (map snd (snd rl)) eb.
+Definition c_arom (m : mol) (rs : list ring) (e : pyres (list nat)) : bool :=
+  pyres_eqb ll_eqb (aromatic_rings m rs) (match e with Ok l => Ok (map (fun k => nth k rs []) l) | Err x => Err x end).
 Definition c_ref (g : graph) (rs : list ring) : bool :=
   is_cycle_basis g (mcb_ref g) && (total_size rs =? total_size (mcb_ref g)).
 Definition c_canon (r : list Z) (e : pyres (list Z)) : bool := pyres_eqb (list_eqb Z.eqb) (canonic_ring r) e.
